@@ -49,6 +49,7 @@ uint64_t events();                       // number of intercepted synchronisatio
 ThreadRec *self();                       // record of the calling thread (registers it on first use)
 ThreadRec *thread(int index);
 int threadCount();                       // records handed out so far
+int unfinishedThreadsWithRole(int role);  // threads started through the interposer whose start routine has not yet returned (or that are still leaving)
 // Frees the records of finished threads for reuse; call only while no other workload thread exists.
 void recycle();
 
@@ -65,6 +66,7 @@ struct Delays {
     // probabilities in permille, per site; maxUs = upper bound of one injected delay
     unsigned beforeLock = 0, afterUnlock = 0, condEntry = 0, afterWake = 0, beforeNotify = 0, threadStart = 0;
     unsigned spurious = 0;              // a watched cond_wait returns without having been notified (allowed by POSIX and the C++ standard)
+    unsigned threadExit = 0;            // a thread whose start routine has returned is slow to leave (it still exists: join() must wait for it)
     unsigned afterCreate = 0;           // the creator is held up right after pthread_create returned (the new thread runs ahead)
     unsigned maxUs = 100;
     unsigned threadStartMaxUs = 1000;
@@ -75,7 +77,7 @@ void disableDelays();
 // counters of injected delays per site (evidence)
 struct Counters {
     std::atomic<uint64_t> beforeLock{0}, afterUnlock{0}, condEntry{0}, afterWake{0}, beforeNotify{0}, threadStart{0}, afterCreate{0};
-    std::atomic<uint64_t> condWaits{0}, watchedCondWaits{0}, creates{0}, joins{0}, spurious{0};
+    std::atomic<uint64_t> condWaits{0}, watchedCondWaits{0}, creates{0}, joins{0}, spurious{0}, threadExit{0};
 };
 Counters &counters();
 
